@@ -146,6 +146,7 @@ func unwrapResults(v Value, n int) []Value {
 }
 
 func (e *Exec) callFn(fr *frame, st *State, c *ssa.CallCommon, fn *ssa.Function, bindings []Value, args []Value, where string) (Value, bool) {
+	e.curCall, e.curFrame = c, fr
 	name := fn.Name()
 	if o := fn.Origin(); o != nil {
 		name = o.Name()
@@ -562,6 +563,43 @@ func (e *Exec) modularCall(st *State, ct *Contract, sig *types.Signature, args [
 	}
 	for _, p := range mods {
 		e.havocLoc(st, p)
+	}
+	if hp := ct.Attrs["havoc-pointee"]; hp != "" && e.curCall != nil && e.curFrame != nil {
+		// the callee writes through the pointer passed (boxed in an interface) as argument hp
+		idx := 0
+		fmt.Sscanf(hp, "%d", &idx)
+		if idx < len(targs) {
+			var pv *Ptr
+			var pt *types.Pointer
+			if bt, ok := targs[idx].(Term); ok {
+				key := bt.S
+				for i := 0; i < 8; i++ {
+					if _, ok := e.boxInfo[key]; ok {
+						break
+					}
+					nx, ok := e.smt.alias[key]
+					if !ok {
+						break
+					}
+					key = nx
+				}
+				if bi, ok := e.boxInfo[key]; ok {
+					if p, ok := bi.t.Underlying().(*types.Pointer); ok {
+						pt = p
+						pv = e.asPtr(bi.v, bi.t)
+					}
+				}
+			}
+			if pv == nil {
+				e.havocAllHeap(st)
+			} else if pv.Kind == pHeap {
+				e.havocLoc(st, &Ptr{Kind: pHeap, Ref: pv.Ref, Root: pv.Root, Type: pt.Elem(), Path: pv.Path})
+			} else if pv.Kind == pCell {
+				v := e.smt.fresh("hv."+pv.Cell.name, e.ti.sortOf(pv.Cell.typ))
+				st.cells[pv.Cell] = v
+				e.assume(st, e.wellTypedDeep(st, pv.Cell.typ, v))
+			}
+		}
 	}
 	if ct.Attrs["calls-arg"] != "" {
 		// the callee may invoke a function argument any number of times: everything that function can
